@@ -173,13 +173,24 @@ def run_unit(u):
                 # tier B: explicit marks
                 judged = True
                 eff = cands
-                if u["marks"]:
+                if u["marks"] and cands:
+                    # `nofinish` on a string disables the short-circuit after
+                    # its match (test_nofinish): the scan goes on, and what is
+                    # found later competes with it by length.  Strings are
+                    # tried longest first, so as soon as a string *with* the
+                    # short-circuit matches, the outcome is the longest
+                    # matching string; only if every matching string is
+                    # `nofinish` do the regexes join the competition.
+                    top = max(c[2] for c in cands)
+                    group = [c for c in cands if c[2] == top]
+                    mark = {c[0]: tset[names.index(c[0])][3] for c in group}
+                    fin_str = [c for c in group
+                               if c[1] == "s" and mark[c[0]] != "nofinish"]
                     eff = []
-                    for c in cands:
-                        mk = tset[names.index(c[0])][3]
+                    for c in group:
                         kind = c[1]
-                        if mk == "nofinish" and kind == "s":
-                            kind = "r"     # loses the string precedence
+                        if kind == "s" and not fin_str:
+                            kind = "r"     # competes by length with regexes
                         eff.append((c[0], kind, c[2], c[3], c[4]))
                     # explicit finish on a regex competing with another regex
                     # of the same priority: the docs do not say which wins
